@@ -10,7 +10,8 @@
 # copy and has to report a violation. A seeded change that no longer applies is
 # skipped (reported); a recorded detection that is lost marks the check BROKEN
 # (exit 2), not the repository. Scratch copies live under $TMPDIR and are
-# removed as soon as used.
+# removed as soon as used. At most SELFTEST_MAX (default 3) seeded changes per
+# property are re-checked, to bound the running time; tools/reseed.py runs all.
 set -u
 cd /verif
 export GOFLAGS=-mod=mod GOPROXY=off GOSUMDB=off GOTOOLCHAIN=local
@@ -26,11 +27,12 @@ bin/govc check "$prop" thorough
 rc=$?
 [ $rc -ne 0 ] && exit $rc
 # must-fail self-test on scratch copies
-broken=0; ran=0
+broken=0; ran=0; max=${SELFTEST_MAX:-3}
 for meta in seeded/*/meta.json; do
   dir=$(dirname "$meta")
   p=$(python3 -c "import json,sys;m=json.load(open('$meta'));print(m.get('property',''),m.get('detected_by_check',''))")
   [ "$p" = "$prop yes" ] || continue
+  [ $ran -ge $max ] && break
   scratch=$(mktemp -d "${TMPDIR:-/tmp}/verif-selftest.XXXXXX")
   rsync -a --exclude .git /repo/ "$scratch/"
   if ! (cd "$scratch" && patch -p1 -s --dry-run < "/verif/$dir/patch.diff" >/dev/null 2>&1); then
@@ -38,7 +40,7 @@ for meta in seeded/*/meta.json; do
     rm -rf "$scratch"; continue
   fi
   (cd "$scratch" && patch -p1 -s < "/verif/$dir/patch.diff")
-  VERIF_EVIDENCE_DIR="$scratch/.evidence" bin/govc check -repo "$scratch" "$prop" quick > "$scratch/.out" 2>&1
+  VERIF_EVIDENCE_DIR="$scratch/.evidence" VERIF_OUT_DIR="$scratch/.outdir" bin/govc check -repo "$scratch" "$prop" quick > "$scratch/.out" 2>&1
   src=$?
   ran=$((ran+1))
   if [ $src -eq 1 ]; then
